@@ -222,13 +222,22 @@ def replay_tree(ck, judge, T, conv, strip, imgw, rep, label, sample=False, more_
     what = "tree %s" % "/".join(n["k"] for n in T)
     # TextConverter on a text sink is given the codec the model chose (tc): the characters must be written unchanged
     # whatever that codec could express; the binary sinks are replayed once per tree (with tc = utf-8)
-    tcodecs = [C.TEXT_SINK_CODEC[tc]] + (["cp1252"] if tc == 3 else []) if conv == "text" else [None]
+    tcodecs = ([C.TEXT_SINK_CODEC[tc]] + (["cp1252"] if tc == 3 else [])) if conv == "text" else [C.TEXT_SINK_CODEC[tc]]
     ideal = con.text(C.model_chars(T, conv, strip, imgw, set()))
     for tcodec in tcodecs:
         try:
             real_s = C.run_converter(pages, conv, "text", None, strip, imgw, text_codec=tcodec)
         except Exception as e:  # noqa: BLE001
             ck.violation("exception:" + type(e).__name__, "%s converter raised %r on %s" % (conv, e, what), rp)
+            return
+        if conv == "xml" and tc == 9:
+            # codec "" is "no codec": the same document as with None
+            if real_s != ideal:
+                evs, err = C.expat_events(real_s)
+                ck.violation("text-sink:codec-empty:" + ("malformed" if err else "differs"),
+                             "xml output of %s on a text sink with codec=\"\" %s" % (what, ("is not well-formed (%s)" % err) if err else "differs from codec=None"),
+                             dict(rp, tc=tc, observed=real_s[:400]))
+            ck.case(1, None)
             return
         if conv == "text" and real_s != ideal:
             ck.violation("text-sink:codec:%s" % tcodec, "text output of %s on a TEXT sink with codec=%r is %r; the characters are %r"
@@ -327,7 +336,7 @@ def teeth(ck):
     if ck.tier == "quick":
         return teeth_quick(ck)
     pairs = [("FigureNameRaw", "P_XMLWellFormed"), ("TextSinkUtf8", "P_SinkIndependent"), ("BomPerWrite", "P_XMLWellFormed"),
-             ("AsciiBypass", "P_SinkIndependent"), ("TextSinkCodecFilter", "P_TextIsTreeText")]
+             ("AsciiBypass", "P_SinkIndependent"), ("TextSinkCodecFilter", "P_TextIsTreeText"), ("EmptyCodecDeclared", "P_XMLWellFormed")]
     if ck.tier == "thorough":
         pairs += [("BomPerWrite", "P_SinkIndependent"), ("FigureNameRaw", "P_XMLParsesBackToTree")]
     found = {}
@@ -337,8 +346,8 @@ def teeth(ck):
         with open(wrapper, "w") as f:
             f.write('---- MODULE %s ----\nEXTENDS MC_Converters\nTheDevs == {{"%s"}}\nTheKinds == {"page", "figure", "char"}\n====\n' % (mod, d))
         cfg = write_cfg(os.path.join(ck.tmp, mod + ".cfg"),
-                        constants={"MaxNodes": 3, "Strings": "<- " + ("StrSinks2" if d in ("AsciiBypass", "TextSinkCodecFilter") else "Palette2"), "Kinds": "<- TheKinds",
-                                   "DevChoices": "<- TheDevs", "ShiftSinks": "TRUE" if d in ("AsciiBypass", "TextSinkCodecFilter") else "FALSE"},
+                        constants={"MaxNodes": 3, "Strings": "<- " + ("StrSinks2" if d in ("AsciiBypass", "TextSinkCodecFilter", "EmptyCodecDeclared") else "Palette2"), "Kinds": "<- TheKinds",
+                                   "DevChoices": "<- TheDevs", "ShiftSinks": "TRUE" if d in ("AsciiBypass", "TextSinkCodecFilter", "EmptyCodecDeclared") else "FALSE"},
                         invariants=[inv])
         res = run_tlc(wrapper, cfg, workers=2, timeout=600, lib=os.path.join(SPECS, "conv"), env=JVM)
         ck.add_tlc(res, "counterexample search: %s alone against %s" % (d, inv))
@@ -427,9 +436,21 @@ def judge_document(ck, judge, data, lakey, what, rp0, convs=("text", "xml"), sin
                 bad = judge.xml_predicates(real_s, lambda: C.real_tree_events(Tp, objs, strip, False), rp, what, strip=strip)
                 if bad:
                     ck.violation("xml:" + bad.split(":")[0], "xml output of %s equals the intended model's but fails %s" % (what, bad), rp)
+            if conv == "xml":
+                # the other spelling of "no codec" on a text sink
+                fp2 = io.StringIO()
+                from pdfminer.high_level import extract_text_to_fp as _x
+                n += 1
+                try:
+                    _x(io.BytesIO(data), fp2, output_type="xml", codec="", laparams=la, strip_control=strip)
+                    if fp2.getvalue() != real_s:
+                        ck.violation("text-sink:codec-empty:differs", "extract_text_to_fp(xml, StringIO, codec=\"\") of %s differs from codec=None: %r"
+                                     % (what, fp2.getvalue()[:60]), dict(rp, observed=fp2.getvalue()[:2000]))
+                except Exception as e:  # noqa: BLE001
+                    ck.violation("text-sink:codec-empty:exception:" + type(e).__name__, "extract_text_to_fp(xml, StringIO, codec=\"\") raised %r" % e, rp)
             if conv == "text":
                 # a TEXT sink takes characters: whatever `codec` is passed along, they arrive unchanged
-                for tcodec in ("latin-1", "ascii", "cp1252"):
+                for tcodec in ("latin-1", "ascii", "cp1252", ""):
                     got = run_high_level(data, "text", "text", tcodec, la, False)
                     n += 1
                     if got != ideal:
@@ -947,6 +968,15 @@ def markup_documents(ck, seen):
                 ext_note(ck, seen, "%s:exception" % conv, "extract_text_to_fp(%s) raised %r" % (conv, e))
                 continue
             real = fp.getvalue()
+            fp2 = io.StringIO()
+            try:
+                extract_text_to_fp(io.BytesIO(data), fp2, output_type=conv, codec="", laparams=C.LAPARAMS[lakey](), layoutmode=mode, scale=scale)
+                if fp2.getvalue() != real:
+                    ext(ck, "%s:codec-empty-differs" % conv)
+                    ext_note(ck, seen, "%s:codec-empty" % conv, "extract_text_to_fp(%s, StringIO, codec=\"\") differs from codec=None" % conv)
+            except Exception as e:  # noqa: BLE001
+                ext(ck, "%s:codec-empty-exception:%s" % (conv, type(e).__name__))
+                ext_note(ck, seen, "%s:codec-empty" % conv, "extract_text_to_fp(%s, StringIO, codec=\"\") raised %r" % (conv, e))
             pages = C.pages_of(data, C.LAPARAMS[lakey]())
             Tp, objs = C.project(pages)
             Tm = M.with_keys(C.model_tree_of(Tp), objs)
